@@ -1,12 +1,14 @@
 /*
  * p2_pre.h + p2_common.h — shared set-up of the pass-2 local checker units (C01 convergence, C02 detection, C05 soundness).
  *
- * The unit file #includes this header; it pulls in the REAL e2fsck/pass2.c (all checkers are `static` there).
+ * A unit does   #include "p2_pre.h"  /  contracts on forward declarations  /  #include "p2_common.h";
+ * p2_common.h pulls in the REAL e2fsck/pass2.c (all checkers are `static` there), the stubs and the world builder.
  *
  * World seen by a checker:
- *   - one directory block of P2_BS = 1024 arbitrary bytes (malloc'ed, filled from IN.blk) and an entry at byte offset
- *     IN.off of it.  What check_dir_block has established before it calls any checker (pass2.c, the `do { ... }` loop,
- *     first `if (!inline_data_size || dot_state > 1)` arm):  with rec_len = ext2fs_get_rec_len(dirent)
+ *   - the directory scan buffer of e2fsck_pass2 (2 x 1024 bytes), whose first half is one directory block of
+ *     P2_BS = 1024 arbitrary bytes (filled from IN.blk), and an entry at byte offset 0 (check_dot) or at an arbitrary
+ *     offset IN.off of it (all others; see "views" in p2_common.h for how the arbitrary offset is represented).
+ *     What check_dir_block has established before it calls any checker (pass2.c, the `do { ... }` loop, first `if (!inline_data_size || dot_state > 1)` arm):  with rec_len = ext2fs_get_rec_len(dirent)
  *         offset + rec_len <= max_block_size (<= fs->blocksize)      [else PR_2_DIR_CORRUPTED -> salvage -> continue]
  *         rec_len >= ext2fs_dir_rec_len(1, extended) >= 12
  *         rec_len % 4 == 0
